@@ -255,7 +255,11 @@ fn run_shots<RK: RadioKind, C: Probe>(
             sh.chip.set_pkt_status(shot.pkt_status);
             sh.chip.set_next_packet(None);
             if case.path != Path::Direct {
-                sh.chip.push_outcome(vec![ev(EvKind::Done, 1 + (shot.nonce as u32 % 3))]);
+                // RxDone arrives with the start command, just after it, or while the driver waits
+                // on the IRQ line. (Latencies that put RxDone between the driver's "read IRQ
+                // status" and "clear all IRQs" make the driver lose the interrupt and wait for
+                // ever; that is not a C18 matter and is avoided here.)
+                sh.chip.push_outcome(vec![ev(EvKind::Done, [0, 1, 10][shot.nonce as usize % 3])]);
             }
         }
         for (i, b) in arena.iter_mut().enumerate() {
@@ -294,8 +298,8 @@ fn run_shots<RK: RadioKind, C: Probe>(
             }
         };
         judge(var, case, shot, &r, &arena, bus, col);
-        if r.is_err() {
-            // after a panic the driver object may be in any state: stop this case
+        if matches!(r, Ok(Err(_))) {
+            // a call that does not return leaves the driver in an unknown state: stop this case
             break;
         }
     }
@@ -389,7 +393,7 @@ fn judge<C: Probe>(var: Var, case: &Case, shot: &Shot, r: &Result<Result<(Result
             // class of the input that makes it panic: oversize length or not; packet-status driven or not
             let cls = if l > case.bufsize { "len>buf" } else { "len<=buf" };
             col.violation(
-                &format!("{}|panic|{}|{}|{}|{}", base, t.file(), t.kind(), hdr, cls),
+                &format!("C18|{}|panic|{}|{}|{}", var.family(), t.file(), t.kind(), cls),
                 "fetching a received packet panicked",
                 detail(json!({"panic": t.msg, "at": t.loc})),
             );
